@@ -84,7 +84,7 @@ func c20Groups(tier string) []core.Group {
 						types = []reflect.Type{model.TInt16, model.TC128, model.TF64, model.TStr}
 					}
 					for _, t := range types {
-						for _, shape := range [][]int{{2, 3}, {3, 3}, {3, 4}, {4, 4}, {2, 2, 4}, {3, 2, 3}, {2, 3, 4}} {
+						for _, shape := range [][]int{{2, 2}, {2, 3}, {3, 3}, {3, 4}, {4, 4}, {2, 1, 2}, {2, 2, 4}, {3, 2, 3}, {2, 3, 4}} {
 							c03Seqs(c, src, t, shape)
 						}
 					}
